@@ -137,6 +137,20 @@ def check_outputs(calls, ctx, findings, where, limit):
             findings.append(Finding("not-formula", "solve_policy raised %s (%s) — %s" % (call["error"][:120], where, _call_regime(call)), {"solver_call": _call_replay(call)}))
             continue
         w = call["w"]
+        ret = call.get("ret")
+        if ret is not None and not (ret.shape == w.shape and bool(torch.equal(ret, w))):
+            # collect-then-compare: the tensor handed out earlier is read again after later solver calls
+            findings.append(
+                Finding(
+                    "not-formula",
+                    "a reported distribution changed after it was reported (%s, call %d of %d): reported %s, the same tensor now reads %s — %s"
+                    % (where, k + 1, len(calls), [("%.4g" % x) for x in w.tolist()[:6]], [("%.4g" % x) for x in ret.tolist()[:6]], _call_regime(call)),
+                    {"solver_call": _call_replay(call)},
+                )
+            )
+            if ctx is not None:
+                ctx.count("solver:report-changed")
+            continue
         if not bool(torch.isfinite(w).all()):
             findings.append(
                 Finding(
@@ -209,12 +223,19 @@ def check_run(res, ctx=None, draws=12):
     if res.tree is None or not res.phases or res.error is not None:
         return findings
 
+    # the whole tree grown from the first root, as it stands NOW: when a child was searched on its own
+    # afterwards (`descend` phases) its statistics moved without the ancestors being told, and every
+    # node must still report the formula of its current statistics
+    whole = res.root_tree if getattr(res, "root_tree", None) is not None else res.tree
     tree = res.tree
-    dump = res.phases[-1]["dump"]
+    try:
+        dump = td.dump_tree(whole, rec.ev_of)
+    except td.NonFinite:
+        return findings
     root_pos = ser.pos_str(tree.position)
 
-    # (a) arguments at every expanded node of the final tree
-    nodes = _preorder_expanded(tree)
+    # (a) arguments at every expanded node of that tree
+    nodes = _preorder_expanded(whole)
     rec.solver_calls = []
     outs_impl = []
     with rec:
@@ -303,15 +324,17 @@ def check_run(res, ctx=None, draws=12):
     # (d) returned moves are legal
     moves = []
     rec.sampler_backup = rec.sampler
+    roots = [t for t in ([tree] if tree is whole else [tree, whole]) if t.children]
     with rec:
-        for k in range(draws):
+        for k in range(draws if roots else 0):
             rec.sampler = ["torch", "uniform", "last", "first"][k % 4]
+            t = roots[k % len(roots)]
             try:
-                m = engine.select_root_move(tree)
+                m = engine.select_root_move(t)
             except Exception as e:
                 findings.append(Finding("illegal-move-returned", "select_root_move raised %s: %s" % (type(e).__name__, str(e)[:100])))
                 break
-            moves.append(("select_root_move", m))
+            moves.append(("select_root_move", m, ser.pos_str(t.position)))
     rec.sampler = rec.sampler_backup
     if case["budget"] <= 30 and case["evaluator"] != "network":
         ev2 = td.Recorder(td.make_evaluator(case), case["sampler"], case["sseed"] + 1)
@@ -319,18 +342,18 @@ def check_run(res, ctx=None, draws=12):
         eng2 = mcts.MCTS(cfg, ev2)
         with ev2:
             try:
-                moves.append(("get_move", eng2.get_move(res.pos)))
+                moves.append(("get_move", eng2.get_move(res.pos), ser.pos_str(res.pos)))
             except Exception as e:
                 check_outputs(ev2.solver_calls, ctx, findings, "during get_move", 10)
                 if not any(f.key == "solver-nonfinite" for f in findings):
                     findings.append(Finding("illegal-move-returned", "get_move raised %s: %s" % (type(e).__name__, str(e)[:100])))
     lines = []
-    for how, m in moves:
+    for how, m, root_pos in moves:
         try:
             lines.append("move rules %s %s" % (root_pos, ser.move_str(m)))
         except Exception:
             lines.append("move rules %s 0 0 0 none" % root_pos)
-    for (how, m), o in zip(moves, driver.run_lines(lines) if lines else []):
+    for (how, m, root_pos), o in zip(moves, driver.run_lines(lines) if lines else []):
         if ctx is not None:
             ctx.evaluated()
             ctx.count("move:" + how)
